@@ -208,6 +208,21 @@ func H_recog_struct() {
 	}
 	vCover("struct-accepted")
 	vA("C20,C12", p != nil && p.Pkg != nil && p.Name != "", "an accepted wire.Struct names the struct type it constructs")
+	// the name list: nothing, or "*" alone, or names of fields written as string literals, each once; "*"
+	// next to other names, unknown names, constants and concatenations are refused (every offered struct has
+	// a field A; "A" twice selects one field twice)
+	isLit := func(x ast.Expr, v string) bool {
+		l, ok := x.(*ast.BasicLit)
+		return ok && l.Value == v
+	}
+	namesOK := nf == 0 || (nf == 1 && (isLit(args[1], `"A"`) || isLit(args[1], `"*"`)))
+	vA("C12", namesOK, "wire.Struct accepts only \"*\" alone or a list of existing field names given as literals")
+	if nf == 1 && isLit(args[1], `"*"`) {
+		vA("C12", len(p.Args) == p.Out[0].Underlying().(*types.Struct).NumFields(), "\"*\" selects every field (none of the offered structs has a prevented field)")
+	}
+	if nf == 0 {
+		vA("C12", len(p.Args) == 0, "no names: no field is set")
+	}
 	if p != nil && p.Pkg != nil {
 		vA("C12", what == 0 || what == 5 || what == 10, "only a pointer to a named struct type is accepted")
 		vA("C12", p.Name == "S" || p.Name == "G" || p.Name == "S1", "the provider is named after the struct type")
